@@ -304,10 +304,14 @@ def cloneBoth (g : Grows) (h : Heap) (list indexes : Slice) : Heap × Slice × S
   ({ h with strs := (sliceClone g.strs h.strs list).1, ints := (sliceClone g.ints h.ints indexes).1 },
    (sliceClone g.strs h.strs list).2, (sliceClone g.ints h.ints indexes).2)
 
+/-- Negative indices count from one past the maximum index. -/
+def resolveIdx (h : Heap) (list indexes : Slice) (k : Int) : Int :=
+  if k < 0 then k + (indexedMax h list indexes + 1) else k
+
 /-- The index an array element is assigned at: explicit (negative counts from the end) or the
     running index. -/
 def elemIndex (h : Heap) (list indexes : Slice) (index : Int) : Option Int → Int
-  | some k => if k < 0 then k + (indexedMax h list indexes + 1) else k
+  | some k => resolveIdx h list indexes k
   | none => index
 
 /-- The element loop of `assignVal` for an indexed array value; a "bad array subscript" error
@@ -419,9 +423,9 @@ def idxKey : Idx → Bytes
 /-- The tail of `setVarWithIndex` for indexed storage: resolve a negative index, set, store. -/
 def setIndexedVar (g : Grows) (r : Runner) (h : Heap) (prev : Var) (name : Bytes) (k : Int) (val : Bytes)
     (list indexes : Slice) : Option Heap :=
-  if (if k < 0 then k + (indexedMax h list indexes + 1) else k) < 0 then some h
+  if resolveIdx h list indexes k < 0 then some h
   else
-    match setIndexedElem g h list indexes (if k < 0 then k + (indexedMax h list indexes + 1) else k).toNat val with
+    match setIndexedElem g h list indexes (resolveIdx h list indexes k).toNat val with
     | none => none
     | some x => setVar r x.1 name { prev with kind := .indexed, list := x.2.1, indexes := x.2.2 }
 
@@ -464,13 +468,12 @@ def unsetElem (g : Grows) (r : Runner) (h : Heap) (name : Bytes) (sub : Sub) : O
     match sub with
     | .all => delVar r h name
     | .int k =>
-      if (if k < 0 then k + (indexedMax h (lookupVar r h name).list (lookupVar r h name).indexes + 1) else k) < 0
-      then some h
+      if resolveIdx h (lookupVar r h name).list (lookupVar r h name).indexes k < 0 then some h
       else
         match deleteIndexedElem (cloneBoth g h (lookupVar r h name).list (lookupVar r h name).indexes).1
             (cloneBoth g h (lookupVar r h name).list (lookupVar r h name).indexes).2.1
             (cloneBoth g h (lookupVar r h name).list (lookupVar r h name).indexes).2.2
-            (if k < 0 then k + (indexedMax h (lookupVar r h name).list (lookupVar r h name).indexes + 1) else k).toNat with
+            (resolveIdx h (lookupVar r h name).list (lookupVar r h name).indexes k).toNat with
         | none => none
         | some x => setVar r x.1 name { lookupVar r h name with list := x.2.1, indexes := x.2.2 }
   | .associative =>
